@@ -11,6 +11,9 @@ import (
 	"net/http"
 	"net/url"
 	"strings"
+	"sync"
+	"sync/atomic"
+	"time"
 
 	"github.com/nais/wonderwall/internal/crypto"
 	"github.com/nais/wonderwall/pkg/cookie"
@@ -238,4 +241,81 @@ func runC09(c *ctx) {
 	} else {
 		c.emit("relogin09", "samekey", false, "samedek", false, "oldopens", false, "newopens", false)
 	}
+	c09Concurrent(c, s, rp, base)
+}
+
+// c09Concurrent: key separation under load. Several users, each with an own session (own data key), hammer the proxy and the session endpoint at the
+// same time through one replica; a request carrying user i's cookie must be served with user i's token and nobody else's, and an untouched cookie /
+// store value must never be reported undecodable (shared decrypt buffers, caches keyed too coarsely and the like show up here).
+func c09Concurrent(c *ctx, s *sut, rp *replica, base string) {
+	const users = 6
+	type user struct {
+		b   *browser
+		tok string
+	}
+	var us []user
+	for i := 0; i < users; i++ {
+		b := newBrowser()
+		if _, err := s.login(b, rp, base, ""); err != nil {
+			panic(err)
+		}
+		d := s.storedData(s.ticketOf(b))
+		if d == nil {
+			panic("c09Concurrent: no stored session")
+		}
+		us = append(us, user{b, d.AccessToken})
+	}
+	// a private upstream log: request path carries the user index, so each upstream request can be attributed
+	dur := 400 * time.Millisecond
+	if c.thorough() {
+		dur = 4 * time.Second
+	}
+	var wg sync.WaitGroup
+	var stop atomic.Bool
+	var n, foreign, unauth, crashed, infoBad atomic.Int64
+	nUp := s.upCount()
+	for w := 0; w < 2*users; w++ {
+		ui := w % users
+		wg.Add(1)
+		go func() {
+			defer wg.Done()
+			u := us[ui]
+			for !stop.Load() {
+				wb := newBrowser() // each request presents the user's cookie from its own copy of the jar
+				wb.jar = append(wb.jar, u.b.jar...)
+				if w < users {
+					resp := wb.do(rp, "GET", fmt.Sprintf("%s/u/%d", base, ui), http.Header{"Sec-Fetch-Mode": {"navigate"}, "Sec-Fetch-Dest": {"document"}})
+					if resp.Status >= 500 {
+						crashed.Add(1)
+					}
+				} else {
+					resp := wb.do(rp, "GET", base+"/oauth2/session", nil)
+					if resp.Status >= 500 {
+						crashed.Add(1)
+					} else if resp.Status != 200 {
+						infoBad.Add(1)
+					}
+				}
+				n.Add(1)
+			}
+		}()
+	}
+	time.Sleep(dur)
+	stop.Store(true)
+	wg.Wait()
+	for _, up := range s.upSince(nUp) {
+		var ui int
+		if _, err := fmt.Sscanf(up.Path, "/u/%d", &ui); err != nil || ui < 0 || ui >= users {
+			continue
+		}
+		a := strings.TrimPrefix(up.Header.Get("Authorization"), "Bearer ")
+		switch {
+		case a == "":
+			unauth.Add(1)
+		case a != us[ui].tok:
+			foreign.Add(1)
+		}
+	}
+	c.count("concurrent09")
+	c.emit("concurrent09", "users", users, "n", n.Load(), "foreign", foreign.Load(), "unauth", unauth.Load(), "infobad", infoBad.Load(), "crashed", crashed.Load())
 }
